@@ -51,7 +51,7 @@ CSpec == CInit /\ [][CNext]_cvars
 CView == <<View, spawned, IF spawned THEN LookBehind(S2.toks) ELSE <<>>>>
 
 \* everything after the boundary equals the fresh lexer's output shifted by the prefix
-ShiftTokM(t) == [t EXCEPT !.c = @ + p0, !.ps = IF t.pk = "s" THEN @ + n0[4] ELSE @, !.pe = IF t.pk = "s" THEN @ + n0[4] ELSE @]
+ShiftTokM(t) == [t EXCEPT !.c = @ + p0, !.l = @ + n0[3] - 1, !.ps = IF t.pk = "s" THEN @ + n0[4] ELSE @, !.pe = IF t.pk = "s" THEN @ + n0[4] ELSE @]
 Compose ==
   spawned =>
     /\ S.pos = S2.pos + p0
